@@ -444,19 +444,19 @@ package deflate
 //@   requires genPre1(c, input, processed, offset, tokens, maxToken)
 //@   modifies c.table, c.hist, tokens[*]
 //@   alias ntokens tokens
-//@   ensures[C01 C16 progress] old(offset) <= nOffset && nOffset <= len(input) && len(tokens) <= len(ntokens) && len(ntokens) <= maxToken + 1 && cap(ntokens) == cap(tokens) && same(c.windowLevel)
-//@   ensures[C01 C10 consumed] len(ntokens) <= maxToken ==> (flush ==> nOffset == len(input)) && (!flush ==> nOffset + 8 >= len(input))
-//@   ensures[C01 pos-inv] posInv(c.table[:], 1<<uint64(c.windowLevel), processed - old(offset), nOffset, 0)
-//@   ensures[C01 C14 tokens-ok] tokensOK(ntokens)
+//@   ensures[C01 C16 C18 progress] old(offset) <= nOffset && nOffset <= len(input) && len(tokens) <= len(ntokens) && len(ntokens) <= maxToken + 1 && cap(ntokens) == cap(tokens) && same(c.windowLevel)
+//@   ensures[C01 C10 C18 consumed] len(ntokens) <= maxToken ==> (flush ==> nOffset == len(input)) && (!flush ==> nOffset + 8 >= len(input))
+//@   ensures[C01 C18 pos-inv] posInv(c.table[:], 1<<uint64(c.windowLevel), processed - old(offset), nOffset, 0)
+//@   ensures[C01 C14 C18 tokens-ok] tokensOK(ntokens)
 
 //@ func (*level2context).generate
 //@   requires genPre2(c, input, processed, offset, tokens, maxToken)
 //@   modifies c.table, c.hist, tokens[*]
 //@   alias ntokens tokens
-//@   ensures[C01 C16 progress] old(offset) <= nOffset && nOffset <= len(input) && len(tokens) <= len(ntokens) && len(ntokens) <= maxToken + 1 && cap(ntokens) == cap(tokens) && same(c.windowLevel)
-//@   ensures[C01 C10 consumed] len(ntokens) <= maxToken ==> (flush ==> nOffset == len(input)) && (!flush ==> nOffset + 8 >= len(input))
-//@   ensures[C01 pos-inv] posInv(c.table[:], 1<<uint64(c.windowLevel), processed - old(offset), nOffset, 0)
-//@   ensures[C01 C14 tokens-ok] tokensOK(ntokens)
+//@   ensures[C01 C16 C18 progress] old(offset) <= nOffset && nOffset <= len(input) && len(tokens) <= len(ntokens) && len(ntokens) <= maxToken + 1 && cap(ntokens) == cap(tokens) && same(c.windowLevel)
+//@   ensures[C01 C10 C18 consumed] len(ntokens) <= maxToken ==> (flush ==> nOffset == len(input)) && (!flush ==> nOffset + 8 >= len(input))
+//@   ensures[C01 C18 pos-inv] posInv(c.table[:], 1<<uint64(c.windowLevel), processed - old(offset), nOffset, 0)
+//@   ensures[C01 C14 C18 tokens-ok] tokensOK(ntokens)
 
 // Assembly match finders (lz77_amd64.s): assumed to satisfy the contract of the Go lz77 for their window and table size.
 //@ func lz77Asm4kL12V1
@@ -518,8 +518,8 @@ package deflate
 //@   requires hist != nil && buf != nil && len(tokens) <= 40000 && tokensOK(tokens) && histCodesOK(hist)
 //@   requires bufOK(buf) && len(buf.output) <= 1073741824
 //@   modifies buf.idx, buf.bits, buf.bitLen, buf.output[*]
-//@   ensures[C01 C14 progress] 0 <= tokenNum && (len(tokens) > 0 ==> tokenNum <= len(tokens))
-//@   ensures[C01 C14 buf-inv] bufOK(buf) && buf.idx >= old(buf.idx) && (len(tokens) > 0 ==> buf.idx < len(buf.output) || tokenNum == 0)
+//@   ensures[C01 C14 C18 progress] 0 <= tokenNum && (len(tokens) > 0 ==> tokenNum <= len(tokens))
+//@   ensures[C01 C14 C18 buf-inv] bufOK(buf) && buf.idx >= old(buf.idx) && (len(tokens) > 0 ==> buf.idx < len(buf.output) || tokenNum == 0)
 //@   ensures tokenNum == 0 ==> same(buf.idx) && same(buf.bits) && same(buf.bitLen)
 //@   ensures[cfg:amd64] len(tokens) == 0 ==> tokenNum == 0
 //@   loop 1 invariant rangeindex < len(tokens) && (rangeindex == -1 ==> tokenIdx == 0) && (rangeindex >= 0 ==> tokenIdx == rangeindex) && 0 <= idx && idx < end && end == len(output) - 8 && 0 <= bitLen && bitLen <= 64 && (bitLen == 64 || bits>>uint64(bitLen) == 0) && idx >= old(buf.idx) && same(buf.idx) && same(buf.bits) && same(buf.bitLen) && same(buf.output) && sameobj(output, buf.output) && len(output) == len(buf.output)
@@ -537,8 +537,8 @@ package deflate
 //@   requires hist != nil && buf != nil && len(tokens) > 0 && len(tokens) <= 40000 && tokensOK(tokens) && histCodesOK(hist)
 //@   requires bufOK(buf) && buf.idx + 8 <= len(buf.output) && len(buf.output) <= 1073741824
 //@   modifies buf.idx, buf.bits, buf.bitLen, buf.output[*]
-//@   ensures[C01 C14 progress] 0 <= tokenNum && tokenNum <= len(tokens)
-//@   ensures[C01 C14 buf-inv] bufOK(buf) && buf.idx >= old(buf.idx) && buf.idx < len(buf.output) + 8
+//@   ensures[C01 C14 C18 progress] 0 <= tokenNum && tokenNum <= len(tokens)
+//@   ensures[C01 C14 C18 buf-inv] bufOK(buf) && buf.idx >= old(buf.idx) && buf.idx < len(buf.output) + 8
 
 // ---------------------------------------------------------------------------
 // package-level tables (written only by the package initializer)
@@ -558,10 +558,10 @@ package deflate
 //@ func encodeBytes
 //@   requires hist != nil && buf != nil && bufOK(buf) && buf.idx + 8 <= len(buf.output) && len(buf.output) <= 1073741824 && len(data) > 0 && len(data) <= 1073741824 && histLitOK(hist)
 //@   modifies buf.idx, buf.bits, buf.bitLen, buf.output[*]
-//@   ensures[C01 C14 progress] 0 <= num && num <= len(data)
-//@   ensures[C01 C14 buf-inv] bufOK(buf) && buf.idx <= len(buf.output) && (num == len(data) ==> buf.idx + 8 <= len(buf.output))
-//@   ensures@2[C01 C10 eob-iff-tail] num < len(data)
-//@   ensures@3[C01 C10 eob-iff-tail] num == len(data)
+//@   ensures[C01 C14 C18 progress] 0 <= num && num <= len(data)
+//@   ensures[C01 C14 C18 buf-inv] bufOK(buf) && buf.idx <= len(buf.output) && (num == len(data) ==> buf.idx + 8 <= len(buf.output))
+//@   ensures@2[C01 C10 C18 eob-iff-tail] num < len(data)
+//@   ensures@3[C01 C10 C18 eob-iff-tail] num == len(data)
 //@   loop 1 invariant[cfg:generic] 0 <= num && num <= len(data) && num <= endOfData + 2 && endOfData == len(data) - 3 && 0 <= idx && idx < end && end == len(output) - 16 && sameobj(output, buf.output) && len(output) == len(buf.output) && same(buf.output) && 0 <= bitLen && bitLen < 8 && bits>>uint64(bitLen) == 0
 //@   loop 2 invariant[cfg:generic] 0 <= i && i <= size && size == bitLen/8 && 0 <= bitLen && bitLen <= 52 && 0 <= idx && idx < end && end == len(output) - 16 && sameobj(output, buf.output) && len(output) == len(buf.output) && same(buf.output) && bits>>uint64(bitLen - 8*i) == 0 && 0 <= num && num <= len(data) && endOfData == len(data) - 3
 //@   loop 3 invariant[cfg:generic] 0 <= num && num <= len(data) && num + 3 >= len(data) && 0 <= idx && idx < end && end == len(output) - 16 && sameobj(output, buf.output) && len(output) == len(buf.output) && same(buf.output) && 0 <= bitLen && bitLen <= 7 + 15*(3 - (len(data) - num)) && bits>>uint64(bitLen) == 0
